@@ -55,6 +55,8 @@ def writer_table(wf, cls):
             if d[0] == 'call' and d[1] == S('range') and len(d[2]) == 1:
                 r = wf.role(d[2][0])
                 cnt = next(iter(r)) if r and len(r) == 1 else None
+                if cnt is not None and not (d[2][0][0] in ('sym', 'attr') or (d[2][0][0] == 'call' and d[2][0][1] == S('len'))):
+                    cnt = '%s: %s lines' % (cnt, show(d[2][0]))          # count - 1, count + 1 ...: not the number the header announces
         out.append((cnt, row, line))
     return out
 
@@ -115,6 +117,19 @@ def run(rep, repo, tier):
         from ..writerfacts import list_alt_problems
         for cnt_, row_, line_ in wt:
             for fld_ in doc.fields_of(line_)[1:]:
+                # the tokens of a list-valued field are what the reader's split() separates again: joined by whitespace
+                def seps_(items):
+                    out_ = []
+                    for x_ in items:
+                        if isinstance(x_, (doc.Rep, doc.Hole)) and getattr(x_, 'sep', None) is not None:
+                            out_.append(x_.sep)
+                        elif isinstance(x_, doc.Alt):
+                            out_ += seps_(x_.a) + seps_(x_.b)
+                    return out_
+                bad_sep = [s_ for s_ in seps_([x_ for x_ in fld_ if not isinstance(x_, str)]) if not s_ or s_.strip()]
+                if bad_sep:
+                    rep.fail('C09.R1', w, 'the tokens of a preference list are separated by whitespace (the reader splits on it) %s' % cfg, got='joined by %r' % bad_sep[0], want="' '",
+                             construct='list tokens joined by %r' % bad_sep[0])
                 for prob in list_alt_problems(fld_):
                     rep.fail('C09.R1', w, 'second-side preference tokens are written exactly when the instance has second-side lists %s' % cfg, got=prob, want='tokens iff the lists exist',
                              construct='second-side list written under the inverted condition')
